@@ -236,5 +236,50 @@ Definition build_request (header raw : bool) (lt : csvin) (pt it : option csvin)
       end
   end.
 
+(** ** pkg/basic/server/oapi/openapi.go: the server-side CSV loaders behind objectstorage references
+    (loadCsvTrustMatrix / loadCsvTrustVector): a header line "i,j,v" / "i,v", decimal indices that
+    must not be negative, every read error is an error, a matrix without records is refused.
+    The result is the (size, coordinate list) the loader hands to NewCSRMatrix / NewVector. *)
+Definition header_is (r : record) (cols : list name) : bool :=
+  (fix eq (a : list field) (b : list name) : bool :=
+     match a, b with [], [] => true | f :: a', c :: b' => name_eqb (f_raw f) c && eq a' b' | _, _ => false end) r cols.
+Definition nat_idx (f : field) : option nat :=
+  match f_atoi f with Some z => if (z <? 0)%Z then None else Some (Z.to_nat z) | None => None end.
+Definition parse_csv_mat_rec (r : record) : rres (nat * nat * T S) :=
+  match r with
+  | [fi; fj; fv] => match nat_idx fi, nat_idx fj, f_float fv with
+                    | Some i, Some j, Some v => ROk (i, j, v)
+                    | _, _, _ => RErr 2
+                    end
+  | _ => RErr 1
+  end.
+Definition load_csv_mat (c : csvin) : option (nat * list (nat * nat * T S)) :=
+  match recs c with
+  | [] => None                                         (* cannot read the header *)
+  | h :: rs =>
+      if negb (header_is h [[105%N]; [106%N]; [118%N]]) then None else
+      match parse_all parse_csv_mat_rec rs with
+      | RErr _ => None
+      | ROk es => if negb (clean_eof c) then None
+                  else let size := dim_of (map (fun e => fst (fst e)) es ++ map (fun e => snd (fst e)) es) in
+                       if size =? 0 then None else Some (size, es)
+      end
+  end.
+Definition parse_csv_vec_rec (r : record) : rres (nat * T S) :=
+  match r with
+  | [fi; fv] => match nat_idx fi, f_float fv with Some i, Some v => ROk (i, v) | _, _ => RErr 2 end
+  | _ => RErr 1
+  end.
+Definition load_csv_vec (c : csvin) : option (nat * list (nat * T S)) :=
+  match recs c with
+  | [] => None
+  | h :: rs =>
+      if negb (header_is h [[105%N]; [118%N]]) then None else
+      match parse_all parse_csv_vec_rec rs with
+      | RErr _ => None
+      | ROk es => if negb (clean_eof c) then None else Some (dim_of (map fst es), es)
+      end
+  end.
+
 End Csv.
 Arguments ROk {A}. Arguments RErr {A}.
